@@ -162,20 +162,130 @@ package model
 // Its reflective helpers are leaves outside the verifier's reach (reflect.Value walks); they are trusted not to
 // panic here and exercised only by the bounded replay corpus. What is decided for all inputs is UpdateList's own body.
 //@ func (*FilterType).Data trusted reflective
+//@   ensures result1 == nil ==> result0 != nil && fresh(result0)
 //@   modifies new(FilterData)
-//@ func deleteFilteredData trusted reflective
-//@   modifies cells(T)
-//@ func copyToSelectedData trusted reflective
-//@   modifies cells(T)
-//@ func copyToAllData trusted reflective
-//@   modifies cells(T)
+// Reflective leaves that write an item: assumed contracts over the abstract record view (cpnn / rmel, see
+// /verif/govc/specials.go); only the destination item is written.
+//@ func CopyNonNilDataFromItemToItem trusted reflective
+//@   ensures source != nil && destination != nil ==> *destination == cpnn(old(*source), old(*destination))
+//@   ensures source == nil || destination == nil ==> (destination != nil ==> *destination == old(*destination))
+//@   modifies *destination
+//@ func RemoveElementFromItem trusted reflective
+//@   requires item != nil
+//@   ensures *item == rmel(old(*item), element)
+//@   modifies *item
+
+// --- the generic update engine (C02, C04, C11), verified for every element type T at once ---
+// rw(x): a remote write may not touch x.   Frames (C11): the engine never writes memory that existed at entry.
+//@ define blocked(rwr, x) = rwr && !wok(x)
+
+// identifier-less update: every item the write may touch receives the non-nil fields of the new item; items a remote
+// write may not touch stay as they are and make the update fail
+//@ func copyToAllData reflective
+//@   requires newData != nil && forall i int :: 0 <= i && i < len(existingData) ==> &existingData[i] != newData
+//@   let E = existingData
+//@   let N = *newData
+//@   ensures[C02,C04] length: len(result0) == len(E)
+//@   ensures[C04] protected-untouched: forall i int :: 0 <= i && i < len(E) && blocked(remoteWrite, old(E[i])) ==> result0[i] == old(E[i])
+//@   ensures[C02,C04] others-updated: forall i int :: 0 <= i && i < len(E) && !blocked(remoteWrite, old(E[i])) ==> result0[i] == cpnn(N, old(E[i]))
+//@   ensures[C04] fails-iff-protected: result1 <==> (forall i int :: 0 <= i && i < len(E) ==> !blocked(remoteWrite, old(E[i])))
+//@   ensures[C11,C04] input-untouched: forall i int :: 0 <= i && i < len(E) ==> E[i] == old(E[i])
+//@   modifies nothing
+//@   loop 0 invariant done: forall j int :: 0 <= j && j < $k ==> existingData[j] == ite(blocked(remoteWrite, old(E[j])), old(E[j]), cpnn(N, old(E[j])))
+//@   loop 0 invariant todo: forall j int :: $k <= j && j < len(E) ==> existingData[j] == old(E[j])
+//@   loop 0 invariant ok: success <==> (forall j int :: 0 <= j && j < $k ==> !blocked(remoteWrite, old(E[j])))
+//@   loop 0 invariant new-kept: *newData == N
+
+// delete filter: with a selector only, the matching items go; with elements, the named fields of the matching (or,
+// without selector, of all) items are cleared; everything else stays, in order. Items a remote write may not touch
+// make the update fail when it addresses them - and only then (C04).
+//@ func deleteFilteredData reflective
+//@   requires filterData != nil
+//@   let E = existingData
+//@   define addressed(x) = filterData.Selector == nil || selm(filterData, x)
+//@   define kept(x) = !(addressed(x) && blocked(remoteWrite, x)) && !(filterData.Elements == nil && selm(filterData, x))
+//@   define cleared(x) = ite(filterData.Elements != nil && addressed(x), rmel(x, filterData.Elements), x)
+//@   filter F entry srcold E keep kept
+//@   ensures[C02,C04] no-filter: filterData.Elements == nil && filterData.Selector == nil ==> result0 == E && result1 && forall i int :: 0 <= i && i < len(E) ==> E[i] == old(E[i])
+//@   ensures[C02,C04] exact-count: !(filterData.Elements == nil && filterData.Selector == nil) ==> len(result0) == Fcnt(len(E))
+//@   ensures[C02,C04] exact-items: !(filterData.Elements == nil && filterData.Selector == nil) ==> forall j int :: 0 <= j && j < len(E) && kept(old(E[j])) ==> result0[Fcnt(j)] == cleared(old(E[j]))
+//@   ensures[C04] fails-iff-addressed-protected: !(filterData.Elements == nil && filterData.Selector == nil) ==> (result1 <==> (forall i int :: 0 <= i && i < len(E) && addressed(old(E[i])) ==> !blocked(remoteWrite, old(E[i]))))
+//@   ensures[C11,C04] input-untouched: forall i int :: 0 <= i && i < len(E) ==> E[i] == old(E[i])
+//@   ensures[C11] fresh-result: !(filterData.Elements == nil && filterData.Selector == nil) ==> len(result0) == 0 || fresh(result0)
+//@   modifies nothing
+//@   loop 0 invariant acc: result == nil || freshPre(result)
+//@   loop 0 invariant count: len(result) == Fcnt($k)
+//@   loop 0 invariant items: forall j int :: 0 <= j && j < $k && kept(old(E[j])) ==> result[Fcnt(j)] == cleared(old(E[j]))
+//@   loop 0 invariant todo: forall j int :: $k <= j && j < len(E) ==> existingData[j] == old(E[j])
+//@   loop 0 invariant ok: success <==> (forall j int :: 0 <= j && j < $k && addressed(old(E[j])) ==> !blocked(remoteWrite, old(E[j])))
+//@   loop 0 invariant filter-kept: !(filterData.Elements == nil && filterData.Selector == nil)
+// selector update: the first matching item the write may touch receives the non-nil fields of the new item; nothing
+// else changes; the update fails iff a matching item that a remote write may not touch comes before it
+//@ func copyToSelectedData reflective
+//@   requires filterData != nil && newData != nil && forall i int :: 0 <= i && i < len(existingData) ==> &existingData[i] != newData
+//@   let E = existingData
+//@   let N = *newData
+//@   define hit(j) = selm(filterData, old(E[j]))
+//@   define elig(j) = hit(j) && !blocked(remoteWrite, old(E[j]))
+//@   define anyElig = exists i int :: 0 <= i && i < len(E) && elig(i)
+//@   spec first() int
+//@   axiom old(anyElig) ==> 0 <= first() && first() < len(E) && elig(first()) && forall j int :: 0 <= j && j < first() ==> !elig(j)
+//@   ensures[C02,C04] no-selector: filterData.Selector == nil ==> result0 == E && result1 && forall i int :: 0 <= i && i < len(E) ==> E[i] == old(E[i])
+//@   ensures[C02,C04] length: len(result0) == len(E)
+//@   ensures[C02,C04] selected-updated: filterData.Selector != nil && old(anyElig) ==> result0[first()] == cpnn(N, old(E[first()])) && forall j int :: 0 <= j && j < len(E) && j != first() ==> result0[j] == old(E[j])
+//@   ensures[C02,C04] nothing-selected: filterData.Selector != nil && !old(anyElig) ==> forall j int :: 0 <= j && j < len(E) ==> result0[j] == old(E[j])
+//@   ensures[C04] fails-iff-protected-hit: filterData.Selector != nil && old(anyElig) ==> (result1 <==> (forall j int :: 0 <= j && j < first() ==> !hit(j)))
+//@   ensures[C04] fails-iff-protected-hit-none: filterData.Selector != nil && !old(anyElig) ==> (result1 <==> (forall j int :: 0 <= j && j < len(E) ==> !hit(j)))
+//@   ensures[C11,C04] input-untouched: forall i int :: 0 <= i && i < len(E) ==> E[i] == old(E[i])
+//@   modifies nothing
+//@   loop 0 invariant none-eligible-yet: forall j int :: 0 <= j && j < $k ==> !elig(j)
+//@   loop 0 invariant unchanged-yet: forall j int :: 0 <= j && j < len(E) ==> existingData[j] == old(E[j])
+//@   loop 0 invariant ok: success <==> (forall j int :: 0 <= j && j < $k ==> !hit(j))
+//@   loop 0 invariant new-kept: *newData == N && filterData.Selector != nil
 //@ func HasIdentifiers trusted reflective
 //@   modifies nothing
 //@ func Merge trusted reflective
 //@   modifies cells(T)
 //@ func SortData trusted reflective
 //@   modifies cells(T)
-//@ func UpdateList safety-root
+// The engine's own body (no loop): the SPINE cmdOption order - delete filter first (its result is used only when it
+// succeeded), then the selector update, else the identifier-less update, else merge by identifier and sort; the result
+// flag is the conjunction of the steps taken. Written over the calls it makes: res2/arg2(callee, k, i) are the results /
+// arguments of the k-th call site of the callee (Data#0 = delete filter, Data#1 = partial filter).
+//@ func UpdateList reflective safety-root
+//@   requires len(newData) > 0 ==> arr(existingData) != arr(newData)
+//@   let E = existingData
+//@   define delTaken = filterDelete != nil && res2(Data, 0, 1) == nil
+//@   define delOK = !delTaken || res2(deleteFilteredData, 0, 1)
+//@   define selTaken = filterPartial != nil && len(newData) > 0 && res2(Data, 1, 1) == nil
+//@   define allTaken = !selTaken && len(newData) > 0 && !hasid(old(newData[0]))
+//@   ensures[C02,C04] delete-first: delTaken ==> arg2(deleteFilteredData, 0, 0) == remoteWrite && arg2(deleteFilteredData, 0, 1) == E && arg2(deleteFilteredData, 0, 2) == res2(Data, 0, 0) && arg2(Data, 0, 0) == filterDelete
+//@   ensures[C02,C04] selector-step: selTaken ==> arg2(Data, 1, 0) == filterPartial && arg2(copyToSelectedData, 0, 0) == remoteWrite && arg2(copyToSelectedData, 0, 1) == ite(delTaken && delOK, res2(deleteFilteredData, 0, 0), E) && arg2(copyToSelectedData, 0, 2) == res2(Data, 1, 0) && arg2(copyToSelectedData, 0, 3) == &newData[0] && result0 == res2(copyToSelectedData, 0, 0) && (result1 <==> (delOK && res2(copyToSelectedData, 0, 1)))
+//@   ensures[C02,C04] identifier-less-step: allTaken ==> arg2(copyToAllData, 0, 0) == remoteWrite && arg2(copyToAllData, 0, 1) == ite(delTaken && delOK, res2(deleteFilteredData, 0, 0), E) && arg2(copyToAllData, 0, 2) == &newData[0] && result0 == res2(copyToAllData, 0, 0) && (result1 <==> (delOK && res2(copyToAllData, 0, 1)))
+//@   ensures[C02,C04] merge-step: !selTaken && !allTaken ==> arg2(Merge, 0, 0) == remoteWrite && arg2(Merge, 0, 1) == ite(delTaken && delOK, res2(deleteFilteredData, 0, 0), E) && arg2(Merge, 0, 2) == newData && arg2(SortData, 0, 0) == res2(Merge, 0, 0) && result0 == res2(SortData, 0, 0) && (result1 <==> (delOK && res2(Merge, 0, 1)))
+//@   modifies cells(T), wm
 
 // the duration a DurationType string denotes (parsed by github.com/rickb777/date/period): a function of the string only
 //@ func (*DurationType).GetTimeDuration trusted pure
+
+// ---------------------------------------------------------------------------------------
+// per-type UpdateList wiring (C02, C04, C11). Contract schema: instantiated mechanically, on every run, for every
+// list type of this package that has an UpdateList method ($LIST = the list type, $F = its slice field,
+// $ELEM = the element type; computed from go/types). The method hands exactly its own list and the new list to the
+// generic engine, returns the engine's results, and stores the result if and only if the update succeeded and is to
+// be persisted; nothing else of the receiver is written.
+//@ func (*$LIST).UpdateList
+//@   requires r != nil
+//@   requires newList != nil ==> typeIs(newList, *$LIST) && newList.(*$LIST) != nil
+//@   requires newList != nil && len(newList.(*$LIST).$F) > 0 ==> arr(r.$F) != arr(newList.(*$LIST).$F)
+//@   let OLD = r.$F
+//@   ensures[C02,C04,C11] engine-args: arg(UpdateList, 0) == remoteWrite && arg(UpdateList, 1) == OLD && arg(UpdateList, 3) == filterPartial && arg(UpdateList, 4) == filterDelete
+//@   ensures[C02] engine-new: (newList == nil ==> len(arg(UpdateList, 2)) == 0) && (newList != nil ==> arg(UpdateList, 2) == old(newList.(*$LIST).$F))
+//@   ensures[C02,C11] returns-engine-result: result1 == res(UpdateList, 1) && typeIs(result0, []$ELEM) && result0.([]$ELEM) == res(UpdateList, 0)
+//@   ensures[C02,C04,C11] stored-iff-success-and-persist: (result1 && persist ==> r.$F == res(UpdateList, 0)) && (!(result1 && persist) ==> r.$F == OLD)
+//@   modifies r.$F, cells($ELEM), wm
+
+// the per-type methods seen through the Updater interface from the generic store (spine.FunctionData[T]): T is the
+// type parameter of the calling function; the list lives in the T value behind the receiver
+//@ iface model.Updater.UpdateList
+//@   modifies cells(T), world, wm
